@@ -167,6 +167,8 @@ func runC08(w *core.World, r *core.Report) {
 	r.Rule("R3", "browse out of range: GetAt/applyPage/shiftMenu in bounds, BrowseError reported and handled by Vm.Render")
 	r.Rule("R4", "byte indices in vm's input validation functions are in bounds")
 	r.Rule("R5", "cache size accounting rules (C09 R4-R6)")
+	r.Rule("R12", "no panicking Must helper of the standard library is applied to run-time data on the request path")
+	r.Rule("R11", "State/Memory.Invalidate (which makes Persister.Save panic) is called only by the pre-VM hook")
 	r.Rule("R10", "a gracefully ended session is always unwound (C20 R2): every non-error return of Flush passes the reset or the exiting==false edge - an ended but un-unwound session descends into its own node on the next request")
 	r.Rule("R9", "the code the engine records after a run is the run's result, recorded on the run's success edge only")
 	r.Rule("R8", "every map written on the request path is non-nil: fresh, a cache frame, a field made by every constructor and writer, or memDb.store (Connect first, assumed)")
@@ -265,6 +267,18 @@ func runC08(w *core.World, r *core.Report) {
 	// ---- R9 -----------------------------------------------------------------------------------
 	checkCodeRecordedFromRun(w, r, "R9")
 	checkFlushResetsOnGracefulEnd(w, r, "R10")
+	{
+		roles := resolveEngineRoles(w)
+		checkWhoMayCall(w, r, "R11", "State/Memory.Invalidate is called only by the pre-VM hook",
+			func(c ssa.CallInstruction) bool {
+				nm := core.CallName(c)
+				return nm == "state.(*State).Invalidate" || nm == "cache.(*Cache).Invalidate" || (c.Common().IsInvoke() && c.Common().Method.Name() == "Invalidate")
+			},
+			func(fn *ssa.Function) bool { return fn == roles.PreVmHook },
+			"all in the engine's pre-VM hook",
+			"state or memory is marked invalid outside the pre-VM hook: Persister.Save panics on invalidated content, so a request that merely fails to render crashes Finish (and Loop through its deferred Finish)", 1)
+	}
+	checkNoMustOnRequestPath(w, r, "R12", reach)
 	if os.Getenv("VISCHECK_EXPLORE") == "implicit" {
 		exploreImplicit(w, r, reach)
 	}
@@ -570,19 +584,9 @@ func checkBrowseBounds(w *core.World, r *core.Report, rule string) {
 			if ev := callErr(firstRender); ev != nil {
 				if refs := ev.Referrers(); refs != nil {
 					for _, u := range *refs {
-						ta, isTA := u.(*ssa.TypeAssert)
-						if !isTA || !strings.Contains(ta.AssertedType.String(), "BrowseError") {
+						okEdges := browseErrorEdgesOf(u)
+						if len(okEdges) == 0 {
 							continue
-						}
-						var okEdges []core.Edge
-						if ta.CommaOk {
-							if tr := ta.Referrers(); tr != nil {
-								for _, x := range *tr {
-									if ex, isEx := x.(*ssa.Extract); isEx && ex.Index == 1 {
-										okEdges = append(okEdges, core.EdgesWhere(ex, true)...)
-									}
-								}
-							}
 						}
 						for _, e := range okEdges {
 							// behind the edge: a VM run of MOVE _catch and a second render before any success return
@@ -597,8 +601,24 @@ func checkBrowseBounds(w *core.World, r *core.Report, rule string) {
 							hasRun := false
 							for _, b := range dominatedRegion(e.To()) {
 								for _, x := range b.Instrs {
-									if c, isC := x.(ssa.CallInstruction); isC && core.IsCallTo(c, "vm.(*Vm).Run") {
+									c, isC := x.(ssa.CallInstruction)
+									if !isC {
+										continue
+									}
+									if core.IsCallTo(c, "vm.(*Vm).Run") {
 										hasRun = true
+									}
+									// the recovery moved into a helper of the VM: it runs and renders on every path
+									if g := core.StaticCallee(c); g != nil && core.PkgOf(g) == "vm" && g != vr && len(g.Blocks) > 0 && len(core.CallsTo(g, "vm.(*Vm).Run")) > 0 {
+										gc := core.NewCut()
+										for _, rc := range core.CallsTo(g, "render.(*Page).Render") {
+											gc.AddInstr(rc.(ssa.Instruction))
+										}
+										if hit, _ := core.Reach(core.Entry(g), isSuccessReturnPred(g), gc); hit == nil && len(gc.Instrs) > 0 {
+											hasRun = true
+											cut.AddInstr(x)
+											n++
+										}
 									}
 								}
 							}
@@ -698,4 +718,63 @@ func exploreImplicit(w *core.World, r *core.Report, reach map[*ssa.Function]bool
 		}
 	}
 	fmt.Fprintf(os.Stderr, "IMPLICIT summary: bounds proved %d, unproved %d, unchecked type assertions %d, divisions %d\n", nOK, nBad, nTA, nDiv)
+}
+
+// browseErrorEdgesOf: u uses an error value to decide "is this a *render.BrowseError": a comma-ok
+// type assertion, or a call of a helper of package vm that returns the ok of such an assertion on
+// its parameter. Returns the edges on which the answer is yes.
+func browseErrorEdgesOf(u ssa.Instruction) []core.Edge {
+	okOfAssert := func(ta *ssa.TypeAssert) []ssa.Value {
+		var out []ssa.Value
+		if !ta.CommaOk || !strings.Contains(ta.AssertedType.String(), "BrowseError") {
+			return nil
+		}
+		if tr := ta.Referrers(); tr != nil {
+			for _, x := range *tr {
+				if ex, isEx := x.(*ssa.Extract); isEx && ex.Index == 1 {
+					out = append(out, ex)
+				}
+			}
+		}
+		return out
+	}
+	var edges []core.Edge
+	switch t := u.(type) {
+	case *ssa.TypeAssert:
+		for _, v := range okOfAssert(t) {
+			edges = append(edges, core.EdgesWhere(v, true)...)
+		}
+	case *ssa.Call:
+		g := core.StaticCallee(t)
+		if g == nil || core.PkgOf(g) != "vm" || len(g.Blocks) == 0 || g.Signature.Results().Len() != 1 {
+			return nil
+		}
+		all, n := true, 0
+		for _, in := range allInstrs(g) {
+			ret, ok := in.(*ssa.Return)
+			if !ok {
+				continue
+			}
+			for _, src := range core.Sources(ret.Results[0]) {
+				n++
+				ex, ok := src.(*ssa.Extract)
+				if !ok || ex.Index != 1 {
+					all = false
+					continue
+				}
+				ta, ok := ex.Tuple.(*ssa.TypeAssert)
+				if !ok || len(okOfAssert(ta)) == 0 {
+					all = false
+					continue
+				}
+				if _, isP := core.Strip(ta.X).(*ssa.Parameter); !isP {
+					all = false
+				}
+			}
+		}
+		if all && n > 0 {
+			edges = append(edges, core.EdgesWhere(t, true)...)
+		}
+	}
+	return edges
 }
